@@ -305,6 +305,16 @@ func verifierChild(args []string) {
 func verifyOnce(vec J) J {
 	alg := vec["alg"].(string)
 	content := streamBytes(I(vec["len"]), I(vec["seed"]))
+	if vec["recorded"] == "trunc_zero_tail" {
+		// a content whose digest ENDS in a zero byte (the first of the seeds that gives one): the recorded hash is that
+		// digest without its last byte - a truncated hash whose missing part happens to be zero
+		for sd := I(vec["seed"]); sd < I(vec["seed"])+100000; sd++ {
+			content = streamBytes(I(vec["len"]), sd)
+			if d := trueDigest(alg, content); d[len(d)-1] == 0 {
+				break
+			}
+		}
+	}
 	// the recorded hash
 	good := hex.EncodeToString(trueDigest(alg, content))
 	recorded := good
@@ -322,7 +332,7 @@ func verifyOnce(vec J) J {
 		recorded = good[:len(good)-4] + "0000"
 	case rc == "trunc_odd":
 		recorded = good[:len(good)-1]
-	case rc == "trunc_even":
+	case rc == "trunc_even", rc == "trunc_zero_tail":
 		recorded = good[:len(good)-2]
 	case rc == "empty_content_hash":
 		recorded = hex.EncodeToString(trueDigest(alg, nil))
@@ -345,6 +355,20 @@ func verifyOnce(vec J) J {
 		var h bestHolder
 		if err := control.Unmarshal(&h, strings.NewReader(field+":\n "+line+"\n")); err == nil {
 			entries = h.Checksums()
+		}
+	case "bestloop": // the Decoder-loop idiom: one variable decoded into twice, the values kept; the FIRST one is used afterwards
+		field := map[string]string{"sha256": "Checksums-Sha256", "sha512": "Checksums-Sha512"}[alg]
+		zeros := strings.Repeat("0", len(good))
+		text := field + ":\n " + line + "\n\n" + field + ":\n " + zeros + " 7 other_2.0.tar.gz\n"
+		if dec, err := control.NewDecoder(strings.NewReader(text), nil); err == nil {
+			var h bestHolder
+			kept := []bestHolder{}
+			for dec.Decode(&h) == nil {
+				kept = append(kept, h)
+			}
+			if len(kept) == 2 {
+				entries = kept[0].Checksums()
+			}
 		}
 	case "hasher": // built from a hasher that saw the content
 		hs, err := hashio.NewHasher(alg)
